@@ -1,6 +1,35 @@
 //! C05 harness A: response-status guards of StatusCodeUpdate / LogOverride vs a reference.
 use redirectionio::action::{StatusCodeUpdate, VerifLogOverride as LogOverride};
 
+/// thorough: three listed codes (the third equal to any value), include mode and exclude mode
+#[kani::proof]
+#[kani::unwind(5)]
+fn c05_status_code_update_3codes() {
+    let sc: u16 = kani::any();
+    let fb: u16 = kani::any();
+    let (c0, c1, c2): (u16, u16, u16) = (kani::any(), kani::any(), kani::any());
+    let excl: bool = kani::any();
+    let u = StatusCodeUpdate {
+        status_code: sc,
+        on_response_status_codes: vec![c0, c1, c2],
+        exclude_response_status_codes: excl,
+        fallback_status_code: fb,
+        rule_id: Some(String::from("r")),
+        fallback_rule_id: Some(String::from("f")),
+        unit_id: None,
+        target_hash: None,
+    };
+    let r: u16 = kani::any();
+    let (got, _) = u.get_status_code(r);
+    let listed = c0 == r || c1 == r || c2 == r;
+    let admits = listed != excl;
+    let want = if admits { sc } else if r != 0 { fb } else { 0 };
+    assert!(got == want);
+    kani::cover!(admits && c2 == r && c0 != r && c1 != r);
+    kani::cover!(!admits && r == 0);
+    std::mem::forget(u);
+}
+
 fn codes() -> (u8, u16, u16, Vec<u16>) {
     let n: u8 = kani::any();
     kani::assume(n <= 2);
